@@ -7,7 +7,10 @@
 
 mod abs;
 mod fam_authz;
+mod fam_conform;
+mod schema;
 mod fam_eval;
+mod fam_ext;
 mod fam_pset;
 mod fam_store;
 mod gen;
@@ -55,6 +58,8 @@ fn family(name: &str) -> Option<(Runner, Driver)> {
         "authz" => (fam_authz::run, fam_authz::drive),
         "store" => (fam_store::run, fam_store::drive),
         "pset" => (fam_pset::run, fam_pset::drive),
+        "ext" => (fam_ext::run, fam_ext::drive),
+        "conform" => (fam_conform::run, fam_conform::drive),
         _ => return None,
     })
 }
